@@ -14,11 +14,20 @@ class Closure:
     _sa_fold_ok = True
     def __init__(self, node, env, folder, cls, self_obj):
         self.node, self.env, self.folder, self.cls, self.self_obj = node, dict(env), folder, cls, self_obj
-    def __call__(self, *args):
+    def __call__(self, *args, **kw):
         env = dict(self.env)
+        env.update(kw)
         for a, v in zip(self.node.args.args, args):
             env[a.arg] = v
         return Lit(self.folder.repo, self.folder.modname, env, self.folder.hook(self.cls, self.self_obj)).ev(self.node.body)
+
+class BoundMethod:
+    """self.method taken as a value (stored in a dispatch table, passed as a callback) and called later."""
+    _sa_fold_ok = True
+    def __init__(self, inst, cls, fn, folder):
+        self.inst, self.cls, self.fn, self.folder = inst, cls, fn, folder
+    def __call__(self, *args, **kw):
+        return self.folder.call_method(self.inst, self.cls, self.fn, list(args), kw)
 
 class FakeFile:
     _sa_fold_ok = True
@@ -44,6 +53,14 @@ class Inst:
         return self._dunder('__setitem__', SliceLit(idx) if isinstance(idx, slice) else idx, value)
     def __len__(self):
         return self._dunder('__len__')
+    def __eq__(self, other):
+        if self._folder is not None and self._folder.find_method(self._cls, '__eq__')[1] is not None:
+            return bool(self._dunder('__eq__', other))
+        return self is other
+    def __ne__(self, other):
+        return not self.__eq__(other)
+    def __hash__(self):
+        return id(self)
 
 class ClassFolder:
     def __init__(self, repo, modname, extra_hook=None):
@@ -94,11 +111,27 @@ class ClassFolder:
                         try:
                             if orig in self.repo.mod(m2).funcs:
                                 return ('fx', m2, orig)
+                            if orig in self.repo.mod(m2).classes:
+                                return ('clsx', m2, orig)
                         except FactError:
                             pass
                 return None
             if isinstance(n, ast.Lambda):
                 return Closure(n, lit.env, self, cur_cls, cur_self)
+            if isinstance(n, ast.Attribute) and isinstance(n.ctx, ast.Load):
+                try:
+                    base = lit.ev(n.value)
+                except NotLiteral:
+                    return None
+                if isinstance(base, Inst) and n.attr not in vars(base):
+                    folder = self if base._mod == self.modname else ClassFolder(self.repo, base._mod, self.extra_hook)
+                    c, m = folder.find_method(base._cls, n.attr)
+                    if m is not None:
+                        if any(isinstance(d, ast.Name) and d.id == 'property' for d in m.decorator_list):
+                            r = folder.call_method(base, c, m, [], {})
+                            return FOLDED_NONE if r is None else r
+                        return BoundMethod(base, c, m, folder)
+                return None
             if isinstance(n, ast.Call):
                 fn = n.func
                 if isinstance(fn, ast.Name) and fn.id == 'hasattr' and len(n.args) == 2:
@@ -136,8 +169,8 @@ class ClassFolder:
                         target = lit.ev(fn)
                     except NotLiteral:
                         target = None
-                    if isinstance(target, Closure):
-                        r = target(*lit._seq(n.args))
+                    if isinstance(target, (Closure, BoundMethod)):
+                        r = target(*lit._seq(n.args), **{k.arg: lit.ev(k.value) for k in n.keywords if k.arg})
                         return FOLDED_NONE if r is None else r
                     if isinstance(target, tuple) and target and target[0] == 'cls':
                         inst = Inst(self.modname, target[1], self)
@@ -145,6 +178,10 @@ class ClassFolder:
                         if m is not None:
                             self.call_method(inst, c, m, lit._seq(n.args), {k.arg: lit.ev(k.value) for k in n.keywords if k.arg})
                         return inst
+                    if isinstance(target, tuple) and target and target[0] == 'clsx':
+                        other = ClassFolder(self.repo, target[1], self.extra_hook)
+                        other.files = self.files
+                        return other.new(target[2], *lit._seq(n.args), **{k.arg: lit.ev(k.value) for k in n.keywords if k.arg})
                     if isinstance(target, tuple) and target and target[0] == 'f':
                         r = self.call_func(self.modname, target[1], lit._seq(n.args), {k.arg: lit.ev(k.value) for k in n.keywords if k.arg})
                         return FOLDED_NONE if r is None else r
@@ -162,6 +199,8 @@ class ClassFolder:
                         if m is not None:
                             r = folder.call_method(obj, c, m, lit._seq(n.args), {k.arg: lit.ev(k.value) for k in n.keywords if k.arg})
                             return FOLDED_NONE if r is None else r
+                    if isinstance(obj, (BoundMethod, Closure)):
+                        pass
                     if isinstance(obj, tuple) and obj and obj[0] == 'cls':
                         # classmethod / staticmethod call on the class
                         c, m = self.find_method(obj[1], fn.attr)
@@ -170,6 +209,14 @@ class ClassFolder:
                             if any(isinstance(d, ast.Name) and d.id == 'classmethod' for d in m.decorator_list):
                                 args = [obj] + args
                             return self._run(m, [a.arg for a in m.args.args], args, {}, c, None)
+                # a folded callable held in a variable, a table or an attribute
+                try:
+                    target = lit.ev(fn)
+                except NotLiteral:
+                    target = None
+                if isinstance(target, (BoundMethod, Closure)):
+                    r = target(*lit._seq(n.args), **{k.arg: lit.ev(k.value) for k in n.keywords if k.arg})
+                    return FOLDED_NONE if r is None else r
             return None
         f.wants_lit = True
         f.override_names = getattr(self.extra_hook, 'override_names', ())
@@ -181,11 +228,16 @@ class ClassFolder:
             raise NotLiteral('call depth')
         try:
             env = dict(zip(params, args))
+            if fn.args.vararg is not None:
+                env[fn.args.vararg.arg] = tuple(args[len(params):])
             env.update(kw)
             defaults = fn.args.defaults
             for p, d in zip(params[len(params) - len(defaults):], defaults):
                 if p not in env:
                     env[p] = Lit(self.repo, self.modname).ev(d)
+            for a, d in zip(fn.args.kwonlyargs, fn.args.kw_defaults):
+                if a.arg not in env and d is not None:
+                    env[a.arg] = Lit(self.repo, self.modname).ev(d)
             ff = FuncFold(self.repo, self.modname, {}, self.hook(cls, self_obj))
             ff.attrs = None
             return ff.call(fn, env)
